@@ -34,8 +34,9 @@ def handle (f : String) (j : Json) : Option Json :=
   | "clean_url" =>
     some (jstr (unchars (cleanUrl (chars (fieldStr j "url")) (chars (fieldStr j "default_protocol")))))
   | "canon_parts" =>
-    let r := canonParts (punyOf j) (fieldBool j "quoted") (fieldBool j "strip_fragment") (parsedOf (field j "parsed"))
-    some (jlist [splitJson r, jstr (unchars (urlunsplit r))])
+    some (match canonSplit (punyOf j) (fieldBool j "quoted") (fieldBool j "strip_fragment") (parsedOf (field j "parsed")) with
+      | some r => jlist [splitJson r, jstr (unchars (printSplit r))]
+      | none => jerr "ValueError")
   | "path_hyp" =>
     let p := chars (fieldStr j "path")
     some (jlist [jbool (Ural.Normpath.absPath p), jbool (Ural.Normpath.pathClean p)])
